@@ -69,6 +69,10 @@ def _worker(task):
                 out[0]["queries"] = int(out[0].get("queries", 0)) + (tq - have_q)
             if out and ts > have_s:
                 out[0]["solver_s"] = float(out[0].get("solver_s", 0.0)) + (ts - have_s)
+            # one of the actual SMT-LIB queries of this task is written into the evidence (truncated)
+            if out and _jx.STATS.samples and not any(r.get("sample") for r in out):
+                smp = _jx.STATS.samples[0]
+                out[0]["sample"] = dict(query_name=smp.get("obligation", ""), smt2=smp.get("smt2", "")[:2500], result=smp.get("result", ""))
         except Exception:
             pass
         for r in out:
@@ -219,7 +223,7 @@ def finish(pid, tier, seed, mod, records, wall, results):
     vac = sum(1 for r in records if r.get("vacuity") is True)
     samples = []
     for r in records:
-        if r.get("sample") and len(samples) < 4:
+        if r.get("sample") and len(samples) < 4 and (len(samples) < 2 or r["sample"].get("smt2")):
             samples.append(dict(obligation=r["name"], **r["sample"]))
     for r in records[:3]:
         if len(samples) < 3:
